@@ -2,44 +2,66 @@
     case = (body ops); statements: (0) signal, (1) stored value, (2) on_cleanup, (3 ty v) provide,
     (4 ty) use, (5 body) child owner, (6 body) effect, (7 body) memo, (8 body) render effect,
     (9 body) isomorphic effect, (10 body) watch, (11 body) immediate effect, (12 kind) raw ArenaItem
-    of the harness' (type, storage) pair number kind;
+    of the harness' (type, storage) pair number kind, (13 ty) take_context, (14 ty v) update_context,
+    (15..26 body) the other effect / memo constructors, (27 hk) typed arena handle(s), see [dec_stmt];
     ops: (10 o) re-run, (11 o) cleanup, (12 o) drop handle, (13 e) notify effect, (14 m) notify memo,
     (15 m) read memo, (16 e) poll task, (17 picks) run until idle, (18 o n) allocate, (19 h) dispose
     handle, (20 o) pause, (21 o) resume, (22 o ty) use_context at o, (23 m) dispose memo handle,
-    (24 e) dispose effect handle / drop render-effect handle, (26 i) notify immediate effect,
+    (24 e) dispose effect handle / drop render-effect handle, (25 e) Effect::stop, (26 i) notify immediate effect,
     (27 i) drop immediate-effect handle, (28 o n kind) allocate n raw arena items, (29 h) release a
     handle the other way (ArenaItem: into_inner, i.e. Storage::take; others: dispose). *)
 From Coq Require Import List ZArith Bool Arith.
 From LV Require Import Base.Sexp Reactive.RxUtil Reactive.Owner.
 Import ListNotations.
 
-Fixpoint dec_stmt (s : sexp) : stmt :=
+(** arena entries made by one typed-handle statement (27 hk): hk 0 signal() = ReadSignal +
+    WriteSignal, 7 RwSignal + read_only(), 8 RwSignal + write_only() make two, the others one *)
+Definition hk_slots (hk : nat) : nat :=
+  match hk with 0 => 2 | 7 => 2 | 8 => 2 | _ => 1 end.
+
+Fixpoint dec_stmt (s : sexp) : list stmt :=
   match s with
   | Lst (Num tag :: args) =>
       let body := match args with
                   | Lst b :: _ => (fix go (l : list sexp) : list stmt :=
-                                     match l with [] => [] | x :: r => dec_stmt x :: go r end) b
+                                     match l with [] => [] | x :: r => dec_stmt x ++ go r end) b
                   | _ => []
                   end in
       match tag with
-      | 0%Z => SNewSig
-      | 1%Z => SNewStored
-      | 2%Z => SOnCleanup
-      | 3%Z => SProvide (as_nat (nth 0 args (Lst []))) (as_Z (nth 1 args (Lst [])))
-      | 4%Z => SUse (as_nat (nth 0 args (Lst [])))
-      | 5%Z => SChild body
-      | 6%Z => SEffect body
-      | 7%Z => SMemo body
-      | 8%Z => SRender body
-      | 9%Z => SEffect body      (* Effect::new_isomorphic: same task loop *)
-      | 10%Z => SEffect body     (* Effect::watch, the body being the dependency function *)
-      | 11%Z => SImm body
-      | 12%Z => SNewItem (as_nat (nth 0 args (Lst [])))
-      | _ => SUse 0
+      | 0%Z => [SNewSig]
+      | 1%Z => [SNewStored]
+      | 2%Z => [SOnCleanup]        (* (2) on_cleanup, (2 1) Owner::on_cleanup *)
+      | 3%Z => [SProvide (as_nat (nth 0 args (Lst []))) (as_Z (nth 1 args (Lst [])))]
+      | 4%Z => [SUse (as_nat (nth 0 args (Lst [])))]   (* (4 ty [mode]): use_context / with_context / expect_context *)
+      | 5%Z => [SChild body]       (* (5 body [mode]): Owner::new + with / current().child() + with / new + set *)
+      | 6%Z => [SEffect body]
+      | 7%Z => [SMemo body]
+      | 8%Z => [SRender body]
+      | 9%Z => [SEffect body]      (* Effect::new_isomorphic: same task loop *)
+      | 10%Z => [SEffect body]     (* Effect::watch, the body being the dependency function *)
+      | 11%Z => [SImm body]
+      | 12%Z => [SNewItem (as_nat (nth 0 args (Lst [])))]
+      | 13%Z => [STake (as_nat (nth 0 args (Lst [])))]
+      | 14%Z => [SUpdate (as_nat (nth 0 args (Lst []))) (as_Z (nth 1 args (Lst [])))]
+      | 15%Z => [SEffect body]     (* Effect::new_sync *)
+      | 16%Z => [SEffect body]     (* Effect::watch_sync *)
+      | 17%Z => [SEffect body]     (* Effect::watch(.., immediate = true) *)
+      | 18%Z => [SEffect body]     (* create_effect *)
+      | 19%Z => [SRender body]     (* RenderEffect::new_isomorphic *)
+      | 20%Z => [SRender body]     (* RenderEffect::new_with_value *)
+      | 21%Z => [SImm body]        (* ImmediateEffect::new_mut *)
+      | 22%Z => [SImm body]        (* ImmediateEffect::new_isomorphic *)
+      | 23%Z => [SImm body]        (* ImmediateEffect::new_scoped: NOT faithful (the handle is dropped by a
+                                      cleanup of the current owner); such cases are not compared *)
+      | 24%Z => [SMemo body]       (* Memo::new_with_compare *)
+      | 25%Z => [SMemo body]       (* Memo::new_owning *)
+      | 26%Z => [SMemo body]       (* Memo::from(ArcMemo::new(..)) *)
+      | 27%Z => repeat (SNewItem 0) (hk_slots (as_nat (nth 0 args (Lst []))))
+      | _ => [SUse 0]
       end
-  | _ => SUse 0
+  | _ => [SUse 0]
   end.
-Definition dec_body (s : sexp) : list stmt := map dec_stmt (as_list s).
+Definition dec_body (s : sexp) : list stmt := flat_map dec_stmt (as_list s).
 
 Definition dec_op (e : sexp) : option op :=
   let a := as_nat (nth_s 1 e) in
@@ -59,6 +81,7 @@ Definition dec_op (e : sexp) : option op :=
   | 22%Z => Some (UseAt a (as_nat (nth_s 2 e)))
   | 23%Z => Some (DisposeMemo a)
   | 24%Z => Some (DisposeEffect a)
+  | 25%Z => Some (StopEffect a)
   | 26%Z => Some (NotifyImm a)
   | 27%Z => Some (DropImm a)
   | 28%Z => Some (AllocItems a (as_nat (nth_s 2 e)) (as_nat (nth_s 3 e)))
